@@ -116,6 +116,11 @@ pub fn oracle_roundtrip(sub: &str, x: &[u8], rank: u64, case: &dyn Fn() -> Value
             _ => bad("bytes-depend-on-sink", "", format!("writing to a sink taking {} bytes per call fails", chunk)),
         }
     }
+    // a clone is the same package
+    match catch(|| write_pkg(&p.clone())) {
+        Ok(Ok(wc)) if wc == w => {}
+        _ => bad("clone-differs", "", "a clone of the parsed package does not write the same bytes".into()),
+    }
     // fixpoint
     match parse_pkg(&w) {
         Ok(Ok(p2)) => {
